@@ -37,6 +37,9 @@ def _cases():
         ("G43 in-place operation on a view of a caller's tensor", lambda f: bool(inplace_on_parameter_views(f)), "f",
          "def f(x, slices):\n    start = slices[..., 0].contiguous()\n    s = start.clamp_min_(0)\n    return x[s]\n",
          "def f(x, slices):\n    start = slices[..., 0].contiguous()\n    s = start.clamp_min(0)\n    lo = (-start).clamp_min_(0)\n    return x[s], lo\n"),
+        ("G43 augmented assignment on a view of a caller's tensor", lambda f: bool(inplace_on_parameter_views(f)), "f",
+         "def f(refs: torch.Tensor, lobe: int):\n    starts = refs[..., 1]\n    starts -= lobe\n    return starts\n",
+         "def f(refs: torch.Tensor, lobe: int):\n    starts = refs[..., 1]\n    starts = starts - lobe\n    lobe += 1\n    return starts\n"),
         ("G42 vacuous any() of a comparison with the first entry", lambda f: bool(vacuous_any_of_self_comparison(f)), "f",
          "def f(x):\n    return (x == x.flatten()[0]).any()\n",
          "def f(x):\n    return (x == x.flatten()[0]).all()\n"),
